@@ -5678,6 +5678,13 @@ class PyCdlib:
         self.isohybrid_mbr.new(efi, mac, part_entry, mbr_id, part_offset,
                                geometry_sectors, geometry_heads, part_type)
 
+        # The boot file address (and the EFI/Mac partitions) recorded in the
+        # hybrid structures are filled in when extents are assigned.
+        if self._always_consistent:
+            self._reshuffle_extents()
+        else:
+            self._needs_reshuffle = True
+
     def rm_isohybrid(self):
         # type: () -> None
         """
